@@ -67,6 +67,17 @@ pub fn lex_fold_parse(f: Fmt, s: &str) -> Out {
     }
 }
 
+/// lexical parser + fold, returning the value itself
+pub fn lex_fold_value(f: Fmt, s: &str) -> Option<Narsese> {
+    match observe(|| -> Option<Narsese> {
+        let lx: LexNarsese = f.l().parse(s).ok()?;
+        lx.try_fold_into(f.e()).ok()
+    }) {
+        Obs::Ret(v) => v,
+        Obs::Panic(_) => None,
+    }
+}
+
 /// format a built value with the enum formatter
 pub fn enum_format(f: Fmt, v: &Narsese) -> Result<String, String> {
     match observe(|| f.e().format_narsese(v)) {
